@@ -74,7 +74,7 @@ def ignore_aliases(data):
     # scalars have no len(), so test for them first; otherwise the
     # TypeError below hides this case and equal numbers that happen to be
     # the same python object are written as yaml anchors and aliases
-    if data is None or isinstance(data, (str, bool, int, float)):
+    if data is None or isinstance(data, (str, bool, int, float, np.generic)):
         return True
     try:
         # numpy arrays no longer want to be compared to None, so instead check for a none by looking for if it is an instance of NoneType
